@@ -1389,7 +1389,9 @@ class Vector():
 		dtype = self._dtype
 		for value in appended:
 			dtype = dtype.promote_with(value)
-		return Vector(self._underlying + appended,
+		# list(): appending nothing must not hand the operand's own tuple to the
+		# result (t + () is t in CPython), or the two would be refused writes as aliases
+		return Vector(list(self._underlying + appended),
 				dtype=dtype)
 
 
@@ -1423,7 +1425,7 @@ class Vector():
 		"""
 		# Convert other to Vector and concatenate with self
 		if isinstance(other, Iterable) and not isinstance(other, (str, bytes, bytearray)):
-			return Vector(tuple(other) + self._underlying,
+			return Vector(list(tuple(other) + self._underlying),
 				None,  # other doesn't have a default element
 				None,
 				False)
